@@ -201,3 +201,55 @@ def install(prog):
     @B('const base64::engine::general_purpose::URL_SAFE', 'const URL_SAFE', 'const base64::prelude::BASE64_URL_SAFE')
     def b_b64_url(ctx, a, callee):
         return Agg('GeneralPurpose', None, ('URL_SAFE',))
+
+    # ------------------------------------------------------------ xml-rs writer: events are recorded, text emission is third-party
+    @B('EmitterConfig::new', 'xml::writer::EmitterConfig::new', 'xml::EmitterConfig::new')
+    def b_emitter_new(ctx, a, callee):
+        return Agg('EmitterConfig', None, (MapV('BTreeMap'),))
+
+    @B('re:^(xml::(writer::)?)?EmitterConfig::(perform_indent|normalize_empty_elements|write_document_declaration|indent_string|line_separator|pad_self_closing|autopad_comments|cdata_to_characters|keep_element_names_stack|perform_escaping)$')
+    def b_emitter_opt(ctx, a, callee):
+        c = D(a[0])
+        return Agg('EmitterConfig', None, (c.fields[0].insert(callee.rsplit('::', 1)[1], a[1]),))
+
+    @B('EmitterConfig::create_writer', 'xml::writer::EmitterConfig::create_writer', 'EventWriter::new', 'EventWriter::new_with_config')
+    def b_create_writer(ctx, a, callee):
+        sink = a[1] if 'create_writer' in callee else a[0]
+        return Agg('EventWriter', None, (CellV(()), sink, D(a[0]) if 'create_writer' in callee else None))
+
+    @B('xml::writer::XmlEvent::start_element', 'XmlEvent::start_element')
+    def b_start_element(ctx, a, callee):
+        return Agg('StartElementBuilder', None, (D(a[0]), (), ()))
+
+    @B('StartElementBuilder::attr', 'xml::writer::events::StartElementBuilder::attr')
+    def b_se_attr(ctx, a, callee):
+        s = D(a[0])
+        return Agg('StartElementBuilder', None, (s.fields[0], s.fields[1] + ((D(a[1]), D(a[2])),), s.fields[2]))
+
+    @B('StartElementBuilder::ns', 'xml::writer::events::StartElementBuilder::ns')
+    def b_se_ns(ctx, a, callee):
+        s = D(a[0])
+        return Agg('StartElementBuilder', None, (s.fields[0], s.fields[1], s.fields[2] + ((D(a[1]), D(a[2])),)))
+
+    @B('StartElementBuilder::default_ns', 'xml::writer::events::StartElementBuilder::default_ns')
+    def b_se_default_ns(ctx, a, callee):
+        s = D(a[0])
+        return Agg('StartElementBuilder', None, (s.fields[0], s.fields[1], s.fields[2] + (('', D(a[1])),)))
+
+    @B('xml::writer::XmlEvent::end_element', 'XmlEvent::end_element')
+    def b_end_element(ctx, a, callee):
+        return Agg('EndElementBuilder', None, ())
+
+    @B('xml::writer::XmlEvent::characters', 'XmlEvent::characters', 'xml::writer::XmlEvent::cdata', 'xml::writer::XmlEvent::comment')
+    def b_characters(ctx, a, callee):
+        kind = callee.rsplit('::', 1)[1]
+        return Agg('xml::writer::XmlEvent', {'characters': 6, 'cdata': 4, 'comment': 5}[kind], (D(a[0]),))
+
+    @B('EventWriter::write', 'xml::writer::EventWriter::write')
+    def b_event_write(ctx, a, callee):
+        w = D(a[0])
+        ev = D(a[1])
+        c = w.fields[0]
+        c.slot[0] = c.slot[0] + (ev,)
+        write_to(ctx, w.fields[1], FmtV((('xml-event', ev),)))
+        return ok(UNIT)
